@@ -143,7 +143,7 @@ type tierPlan struct {
 func layer1Jobs(e *lib.Env) []job {
 	plan := tierPlan{maxP: 2, maxC: 2, maxOps: 2, fullBelow: 60000, fullCap: 120000, pbBound: 2, pbCap: 3000, randWalks: 200}
 	if !e.Quick() {
-		plan = tierPlan{maxP: 3, maxC: 3, maxOps: 3, fullBelow: 2000000, fullCap: 4000000, pbBound: 2, pbCap: 20000, randWalks: 1000}
+		plan = tierPlan{maxP: 3, maxC: 3, maxOps: 3, fullBelow: 2000000, fullCap: 4000000, pbBound: 2, pbCap: 8000, randWalks: 500}
 	}
 	var jobs []job
 	seedRng := e.Rand("layer1")
